@@ -1060,6 +1060,11 @@ class PseudoNetCDFFile(PseudoNetCDFSelfReg, object):
                     ):
                         vdimt = cand.dimensions
                         break
+                if any(np.may_share_memory(val, v)
+                       for v in self.variables.values()
+                       if isinstance(v, np.ndarray)):
+                    # a plain view of an existing variable (np.asarray(A))
+                    val = np.array(val)
                 outf.createVariable(key, val.dtype.char,
                                     vdimt, values=val, **propd)
 
